@@ -131,26 +131,47 @@ def refusal_sweep(ctx, rng):
                                 refusal=[p[:40].hex() for _, p in rep], application_saw=repr(log), reply=[p[:12].hex() for _, p in rep2]), n
             finally:
                 env.close()
-    # the handshake itself with no proof / a wrong proof for an account that has a password: refused, nothing served
-    for resp_kind in ("empty", "wrong"):
-        env = impl.Env(own_sleep=False)
-        try:
-            log = []
-            S.LOG = log
-            srv = impl.make_server(env, S, identity_provider=IP())
-            c = impl.Conn(env, srv)
-            env.settle()
-            nonce = cl.parse_handshake_v10(cl.split_raw(c.take())[0][1])["nonce"]
-            c.feed(cl.frame(cl.handshake_response(user=b"alice", auth=b"" if resp_kind == "empty" else cl.native_scramble(b"no", nonce), charset=45), 1))
-            rep = cl.split_raw(c.take())
-            n += 1
-            if c.blocked_on() != "done":
-                c.feed(cl.frame(bytes([cl.COM_QUERY]) + b"SELECT answer FROM t", 0))
-            rep2 = cl.split_raw(c.take())
-            if (rep and rep[-1][1][:1] == b"\x00") or log or any(p[:1] != b"\xff" for _, p in rep2):
-                return dict(problem="a handshake without a valid proof was accepted / served", proof=resp_kind, application_saw=repr(log)), n
-        finally:
-            env.close()
+    # the handshake itself without a valid proof, for every way a client may present itself: with / without CLIENT_PLUGIN_AUTH
+    # (a pre-5.5.7 client cannot be sent an auth switch), length-encoded proofs, a database in the handshake, announcing the
+    # account's plugin / another one / none; requests for another proof are answered with a wrong one.  Refused, nothing served.
+    capsets = [("base", cl.BASE_CAPS), ("no-plugin-auth", cl.BASE_CAPS & ~cl.CLIENT_PLUGIN_AUTH),
+               ("lenenc", cl.BASE_CAPS | cl.CLIENT_PLUGIN_AUTH_LENENC), ("with-db", cl.BASE_CAPS | cl.CLIENT_CONNECT_WITH_DB),
+               ("no-plugin-auth-with-db", (cl.BASE_CAPS & ~cl.CLIENT_PLUGIN_AUTH) | cl.CLIENT_CONNECT_WITH_DB)]
+    for capname, caps in capsets:
+        for plugin in (b"mysql_native_password", b"caching_sha2_password", b""):
+            for user, resp_kind in ((b"alice", "empty"), (b"alice", "wrong"), (b"nologin", "empty"), (b"nologin", "wrong"), (b"bob", "wrong")):
+                if not (caps & cl.CLIENT_PLUGIN_AUTH) and plugin != b"mysql_native_password":
+                    continue
+                env = impl.Env(own_sleep=False)
+                try:
+                    log = []
+                    S.LOG = log
+                    srv = impl.make_server(env, S, identity_provider=IP())
+                    c = impl.Conn(env, srv)
+                    env.settle()
+                    nonce = cl.parse_handshake_v10(cl.split_raw(c.take())[0][1])["nonce"]
+                    proof = b"" if resp_kind == "empty" else cl.native_scramble(b"no", nonce)
+                    c.feed(cl.frame(cl.handshake_response(user=user, auth=proof, caps=caps, plugin=plugin, db=b"db", charset=45), 1))
+                    rep = cl.split_raw(c.take())
+                    n += 1
+                    accepted = bool(rep) and rep[-1][1][:1] == b"\x00"
+                    rounds = 0
+                    while rep and rep[-1][1][:1] in (b"\xfe", b"\x01") and rounds < 3 and c.blocked_on() != "done":
+                        rounds += 1       # asked for another proof: a wrong one again
+                        c.feed(cl.frame(cl.native_scramble(b"still wrong", nonce), (rep[-1][0] + 1) % 256))
+                        rep = cl.split_raw(c.take())
+                        accepted = accepted or (bool(rep) and rep[-1][1][:1] == b"\x00")
+                    served = []
+                    for cmd in (bytes([cl.COM_QUERY]) + b"SELECT answer FROM t", bytes([cl.COM_PING]), bytes([cl.COM_QUERY]) + b"SELECT answer FROM t"):
+                        if c.blocked_on() != "done":
+                            c.feed(cl.frame(cmd, 0))
+                            served += [p for _, p in cl.split_raw(c.take()) if p[:1] != b"\xff"]
+                    if accepted or log or served or c.blocked_on() != "done":
+                        return dict(problem="a handshake without a valid proof was accepted / the connection went on being served",
+                                    client=capname, announced_plugin=plugin.decode(), user=user.decode(), proof=resp_kind, accepted=accepted,
+                                    application_saw=repr(log), served=[p[:12].hex() for p in served][:4], connection=c.blocked_on()), n
+                finally:
+                    env.close()
     return None, n
 
 
